@@ -291,6 +291,10 @@ func loadKnown(path string) []KnownFinding {
 // verifyFunction generates all obligations of one function under contract.
 func (x *Exec) verifyFunction(fn *ssa.Function, fc *FuncContract, prop string, rep *FuncReport, work string, timeout int) {
 	c := x.c
+	// each function is verified from its own assumptions only
+	x.assumps = nil
+	x.recDone = map[*Term]bool{}
+	x.recDepth = map[string]int{}
 	fr := x.newFrame(fn, nil)
 	fr.top = true
 	fr.props = fc.Props
